@@ -59,3 +59,35 @@ Theorem C06_string_pad_spacepad : forall (size : N) (bs : bytes), exists k,
   last_not 32 (dec_string SpacePad size bs) = true.
 Proof. exact string_spacepad. Qed.
 Print Assumptions C06_string_pad_spacepad.
+
+(* ---- known findings shown on the model of the code as it is (attribute.go ReadValue at the pinned commit) ---- *)
+
+(* the full statement for 32/64-bit integer attributes (Model.RefDecode.attr_int_full): reader o s n bs = dec_int o s n bs
+   for every well-formed element.  The pinned reader refutes it; so does the reader repaired for byte order. *)
+Theorem C06_attr_int_full_refuted : ~ attr_int_full go_attr_int_pinned.
+Proof. exact attr_pinned_full_refuted. Qed.
+Print Assumptions C06_attr_int_full_refuted.
+
+Theorem C06_attr_int_full_after_fix_refuted : ~ attr_int_full go_attr_int_fixed.
+Proof. exact attr_fixed_full_refuted. Qed.
+Print Assumptions C06_attr_int_full_after_fix_refuted.
+
+(* it holds for little-endian signed attributes ... *)
+Theorem C06_attr_int_partial : forall n bs, go_attr_int_pinned LE true n bs = dec_int LE true n bs.
+Proof. exact attr_pinned_ok_le_signed. Qed.
+Print Assumptions C06_attr_int_partial.
+
+(* ... and fails for big-endian ones (KNOWN-FINDING C06-attr-byte-order-ignored; repaired by
+   notes/fixes/c06-attribute-byte-order.patch) ... *)
+Theorem C06_attr_byte_order_refuted :
+  exists bs, byte_ok bs = true /\ length bs = 4%nat /\ go_attr_int_pinned BE true 4 bs <> dec_int BE true 4 bs.
+Proof. exact attr_pinned_byte_order_refuted. Qed.
+Print Assumptions C06_attr_byte_order_refuted.
+
+(* ... and for unsigned ones, before and after that repair (KNOWN-FINDING C06-attr-unsigned-as-signed: the
+   existing tests pin int32/int64 results for datatypes whose sign bit is clear) *)
+Theorem C06_attr_unsigned_refuted :
+  exists bs, byte_ok bs = true /\ length bs = 4%nat /\
+    go_attr_int_pinned LE false 4 bs <> dec_int LE false 4 bs /\ go_attr_int_fixed LE false 4 bs <> dec_int LE false 4 bs.
+Proof. exact attr_unsigned_refuted. Qed.
+Print Assumptions C06_attr_unsigned_refuted.
